@@ -21,7 +21,7 @@ def scale_symmetric(A):
     D = np.zeros((n,), dtype=int)
 
     for i in range(max_it):
-        R = np.zeros((n,), dtype=int)
+        R = np.zeros((n,), dtype=float)
 
         for k in range(len(a_data)):
             R[a_cols[k]] += a_data[k]
@@ -94,7 +94,7 @@ class Scaling:
         data = np.abs(jac.data)
 
         prescaled_data = np.ldexp(data, -var_weights[cols])
-        max_values = np.zeros((num_cons,), dtype=int)
+        max_values = np.zeros((num_cons,), dtype=float)
 
         for i, row in enumerate(rows):
             max_values[row] = max(max_values[row], prescaled_data[i])
